@@ -67,6 +67,12 @@ type ExecutionContext struct {
 	template   *Template
 	macroDepth int
 
+	// nodeState holds what nodes need to remember during one execution (the
+	// position of a cycle tag, the last values of an ifchanged tag). It is created
+	// per execution and shared with all child contexts, so the compiled template
+	// itself is never written to while it is being executed.
+	nodeState map[any]any
+
 	Autoescape bool
 	Public     Context
 	Private    Context
@@ -89,6 +95,7 @@ func newExecutionContext(tpl *Template, ctx Context) *ExecutionContext {
 		Public:     ctx,
 		Private:    privateCtx,
 		Autoescape: autoescape,
+		nodeState:  make(map[any]any),
 	}
 }
 
@@ -101,6 +108,10 @@ func NewChildExecutionContext(parent *ExecutionContext) *ExecutionContext {
 		Autoescape: parent.Autoescape,
 	}
 	newctx.Shared = parent.Shared
+	if parent.nodeState == nil {
+		parent.nodeState = make(map[any]any)
+	}
+	newctx.nodeState = parent.nodeState
 
 	// Copy all existing private items
 	newctx.Private.Update(parent.Private)
